@@ -412,6 +412,11 @@ RetStep(m, ev) ==
                                         /\ ~(api = "write" /\ tgs[i].value = [none |-> 1])        \* writing None: unspecified
              THEN Bad(m, "C13:empty-error")
         ELSE Good(m)
+    ELSE IF m.corrupted /\ api \in {"open", "enter", "get_tag_list"} THEN
+        \* the upload one of whose replies was corrupted: what the library saw is unknown to the model, so the tag list is not
+        \* judged; but a reply carrying an encapsulation error is no reply: the upload cannot have completed normally
+        IF m.corrEncap /\ ev.outcome = "value" /\ ev.faulted = 0 THEN Bad(m, "C13:success-on-error+C05:upload-on-error")
+        ELSE Good(m)
     ELSE IF m.kind = "slc" /\ api \in {"read", "write"} THEN
         LET c == SlcRet(m, ev) IN IF c = "" THEN Good(m) ELSE Bad(m, c)
     ELSE LET r == LxRet(m.lx, m.call, ev)
